@@ -507,6 +507,7 @@ def check_c08(res, tier, rng):
 
 
 UNSAFE_PAT = re.compile(r'unsafe\s*\{|unsafe\s+fn|unsafe\s+impl|get_unchecked(?:_mut)?|ptr::\w+|set_len|from_raw_parts(?:_mut)?|MaybeUninit|as_mut_ptr|as_ptr|push_unchecked|pop_unchecked|extend_unchecked|resize_unchecked|truncate_unchecked|transmute|\.add\(|\.offset\(|write_bytes|copy_nonoverlapping|static\s+mut')
+STATE_PAT = re.compile(r'static\s+mut\b|\bstatic\s+\w+\s*:|\bAtomic\w+|thread_local!|\bCell\b|\bRefCell\b|\bUnsafeCell\b|\bOnceCell\b|\bOnceLock\b|\bLazyLock\b|\bLazy\b|lazy_static|\bMutex\b|\bRwLock\b|\bOnce\b')
 ALLOC_PAT = re.compile(r'\bVec\b|\bvec!|\bBox\b|\bString\b|format!|\bRc\b|\bArc\b|to_vec\(|to_string\(|to_owned\(|extern\s+crate\s+alloc|\balloc::')
 
 
@@ -536,7 +537,7 @@ def inventory(pattern, files=None):
 
 
 def inventory_check(kind='unsafe'):
-    pat = UNSAFE_PAT if kind == 'unsafe' else ALLOC_PAT
+    pat = {'unsafe': UNSAFE_PAT, 'alloc': ALLOC_PAT, 'state': STATE_PAT}[kind]
     cur = Counter(inventory(pat))
     path = '%s/inventory.%s.expected' % (VERIF, kind)
     exp = Counter()
@@ -661,9 +662,47 @@ def check_c16(res, tier, rng):
                     if nviol <= 20:
                         res.violation('result depends on how the bytes are supplied (%s gives %s, slice iterators give %s)' % (shp, outs[k], want),
                                       {'case': l[:3000], 'cfg': cfg, 'build': m, 'config': CFG_DESC[cfg], 'shape': shp, 'observed': outs[k], 'expected': want})
+    # call histories: inputs that share their digit bytes and are hard at two decimal scales, parsed
+    # back to back in one process in every order, on one thread and across threads; every answer must
+    # be the one the input gets on its own (= the oracle's)
+    groups = g_rescale(rng, scale(tier, 40, 400))
+    hist = []
+    for A, B, C in groups:
+        for seq in ((A, B), (B, A), (A, C), (C, A), (B, C, A), (A, A, B)):
+            hist.extend(seq)
+    hlines = []
+    for k, c in enumerate(hist):
+        shp = 'threads' if (k // 7) % 3 == 2 else 'slice'
+        hlines.append('PFI %s %s %s %s %d' % (c.fmt, shp, c.i or '-', c.f or '-', c.e))
+    himpl, _ = run_matrix(hlines, cfgs, ALL_MODES, model=False)
+    res.evaluations += len(hlines) * len(cfgs) * 2
+    nh = 0
+    for (cfg, m), outs in himpl.items():
+        for k, c in enumerate(hist):
+            want = 'V %016x' % rn_decimal(c.fmt, c.i, c.f, c.e)
+            if outs[k] != want:
+                alone = one_impl(cfg, m, c.line())
+                nh += 1
+                if nh <= 10:
+                    prev = hist[k - 1].line() if k else '(first call)'
+                    if alone == want:
+                        res.violation('result depends on the calls made before: after `%s` the input gives %s, on its own it gives %s' % (prev[:160], outs[k], alone),
+                                      {'case': c.line()[:3000], 'history': [h.line()[:3000] for h in hist[max(0, k - 2):k + 1]], 'cfg': cfg, 'build': m, 'config': CFG_DESC[cfg],
+                                       'observed': outs[k], 'expected': want, 'family': c.fam})
+                    else:
+                        res.violation('wrong value on a double-scale hard case: got %s expected %s' % (outs[k], want),
+                                      {'case': c.line()[:3000], 'cfg': cfg, 'build': m, 'config': CFG_DESC[cfg], 'observed': outs[k], 'expected': want, 'family': c.fam})
+    res.suite_stats['history_groups'] = len(groups)
+    res.suite_stats['history_calls'] = len(hlines)
     # the sequential reference itself is tied to the model / oracle
     pf = [c.line() for c in cases]
     run = l0_run(res, cases, cfgs, ALL_MODES, MODEL_PLAN_LIGHT if 'model' not in broken else [], model_budget=scale(tier, 300, 2000), rng=rng)
     corr = model_mismatches(run)
     res.suite_stats['shapes'] = SHAPES
-    finish_verdict(res, broken, corr, 'L0 iterator shapes / histories / threads')
+    # global mutable state: the model of parse_float is a function of its arguments; the code must not
+    # have grown state that outlives a call (statics with interior mutability, atomics, thread-locals)
+    inv = inventory_check('state')
+    res.suite_stats['state_inventory'] = inv['summary']
+    if inv['diff']:
+        corr.append({'case': 'inventory of global / interior-mutable state in /repo/src differs from the one the model was written against (the model of parse_float is stateless)', 'diff': inv['diff'][:20]})
+    finish_verdict(res, broken, corr, 'L0 iterator shapes / histories / threads + state inventory')
